@@ -55,11 +55,11 @@ pub fn rebuild<S: Sut>(uni: &Universe, hist: &[Op], key_opts: KeyOpts) -> Option
         let mut model = st.model.clone();
         let tok = (st.depth + 1) * 1000;
         let r = guarded(|| {
-            let _ = map.apply(&mut model, &st.walk, *op, tok, &cx);
+            let _ = map.apply(&mut model, st.walk(), *op, tok, &cx);
             post_check(&map, &model, &st, *op, uni, key_opts).1
         });
         let (w, key) = r.ok()??;
-        st = St { map, model, walk: w, key, depth: st.depth + 1, hist: None, taint: 0 };
+        st = St { map, model, walk_cell: std::sync::OnceLock::from(w), width: uni.width, key, depth: st.depth + 1, hist: None, taint: 0 };
     }
     Some(st)
 }
@@ -77,7 +77,7 @@ pub fn run_history_checked<S: Sut>(uni: &Universe, hist: &[Op], observers: &[(&'
         let mut model = st.model.clone();
         let tok = (st.depth + 1) * 1000;
         let r = guarded(|| {
-            let mut vs = map.apply(&mut model, &st.walk, *op, tok, &cx);
+            let mut vs = map.apply(&mut model, st.walk(), *op, tok, &cx);
             let (mut vs2, wk) = post_check(&map, &model, &st, *op, uni, key_opts);
             vs.append(&mut vs2);
             (vs, wk)
@@ -93,7 +93,7 @@ pub fn run_history_checked<S: Sut>(uni: &Universe, hist: &[Op], observers: &[(&'
                     out.push((v, i + 1, "transition".into()));
                 }
                 let Some((w, key)) = wk else { return (out, transitions, evals) };
-                st = St { map, model, walk: w, key, depth: st.depth + 1, hist: None, taint: 0 };
+                st = St { map, model, walk_cell: std::sync::OnceLock::from(w), width: uni.width, key, depth: st.depth + 1, hist: None, taint: 0 };
             }
         }
         if i + 1 == hist.len() || (obs_every > 0 && (i + 1) % obs_every == 0) {
@@ -137,7 +137,7 @@ fn replay_explore<S: Sut>(uni: &Universe, hist: &[Op], at: &str, alpha: Alphabet
         let mut model = st.model.clone();
         let tok = (st.depth + 1) * 1000;
         let r = guarded(|| {
-            let mut vs = map.apply(&mut model, &st.walk, *op, tok, &cx);
+            let mut vs = map.apply(&mut model, st.walk(), *op, tok, &cx);
             let (mut vs2, wk) = post_check(&map, &model, &st, *op, uni, key_opts);
             vs.append(&mut vs2);
             (vs, wk)
@@ -156,7 +156,7 @@ fn replay_explore<S: Sut>(uni: &Universe, hist: &[Op], at: &str, alpha: Alphabet
                     out.extend(vs);
                     return out;
                 };
-                st = St { map, model, walk: w, key, depth: st.depth + 1, hist: None, taint: 0 };
+                st = St { map, model, walk_cell: std::sync::OnceLock::from(w), width: uni.width, key, depth: st.depth + 1, hist: None, taint: 0 };
             }
         }
     }
